@@ -19,6 +19,12 @@ META = {
         "note": "Trusted: Lean kernel; amx translation of ErrorKind::or (pattern arms → first-match function) and of load_from_source (shape-checked template in CPS); the World model eval as transcription of anycache.rs/asset.rs/key.rs. Tie: Gen/Tables.lean regenerated each run + `load` engine (exhaustive status space per asset type + random) diffed against the model + independent oracle from the status vector.",
         "technique": "Lean 4 proof over definitions regenerated from source + differential correspondence",
     },
+    "C16": {
+        "text": "Theorems over definitions regenerated from src/utils/bytes.rs and string.rs: every construction path derefs to its input (any length, any Vec capacity incl. 0); for every list of atomic steps of any number of threads (clone, deref, move, drop, the three steps of drop_slow) no use-after-free / double free / layout or capacity mismatch / underflow occurs, count = live handles, every deref through any handle yields the source, each block is freed exactly once and only after the last drop, nothing leaks and the last drop always completes; dealloc layout = alloc layout on both branches (inline layout of 0 = header layout); clone/drop are single RMWs with Release decrement and Acquire before the free; from_utf8 accepts exactly valid UTF-8 and keeps the bytes, valid_up_to is the longest valid prefix; unchecked SharedString literals are fed str/String bytes only; comparisons and hashes go through the slices.",
+        "design_ref": "DESIGN.md §6 C16",
+        "note": "Partial by design: the weak memory model and the allocator are modelled, not proved (orderings are checked against the textbook table). Tie: Gen/Bytes.lean regenerated each run (RMW kinds + orderings, 'was last' test, drop_slow branch / layouts, constructor layouts + header literals, From dispatch, SharedString literal sites, comparison delegation); engine bytes diffs every public path, forced schedules on real threads, strings and the serde visit_* paths against the model, with an accounting global allocator (layout on free, double free, leaks) and an oracle written from the statement.",
+        "technique": "Lean 4 proof over model regenerated from source + differential correspondence with allocator accounting",
+    },
     "C18": {
         "text": "Theorems over the definitions regenerated from src/entry.rs: update = (max, grew) for ReloadId and AtomicReloadId, NEVER least, every atomic method is a single RMW primitive, and for every linearisation (= every schedule of any number of threads) final = max offered, told-true iff grew, each growth reported exactly once and never lost. Unbounded in values, number of calls and threads.",
         "design_ref": "DESIGN.md §6 C18",
